@@ -8,6 +8,42 @@ TRUST = ("sqlite3, CPython, simplejson, pyfaidx and the OS are trusted; exhausti
 
 # id -> (engine, technique, level text, design_ref, note)
 CHECKS = {
+ "C02": ("E1", "stateless exhaustive enumeration of all small Parent DAGs x dangling value x every line permutation against the real importer and relation queries",
+         "Every DAG on <= 4 (quick) / <= 5 (thorough) labelled features, with a dangling Parent value on at most one feature and every permutation of the lines, is imported by the real create_db; children()/parents() for every feature, level, featuretype and order_by, plus iter_by_parent_childs, are compared with the closure computed from the Parent lists.",
+         "3/C02", "unique ids; two relation levels; " + TRUST),
+ "C03": ("E1", "stateless exhaustive enumeration of small GTF gene/transcript structures x line orders x inference flags against a reference derivation",
+         "Gene/transcript structures (1-2 transcripts, 1-2 genes, exon sets incl. none/nested/reordered, wide CDS lines, explicit gene/transcript lines) x line orders x the four disable_infer_* combinations x default/custom keys are imported by the real create_db; stored ids, derived extents and every children/parents answer at levels 1, 2, None are compared with a reference derivation written from the statement.",
+         "3/C03", "all sub-feature lines carry both ids; exons of a gene share seqid/strand; explicit transcript as level-2 child of its gene is accepted either way; " + TRUST),
+ "C04": ("E1", "stateless exhaustive enumeration of id_spec forms x per-line attribute presence patterns against a reference id handler",
+         "13 id_spec forms x featuretype patterns x every assignment of {ID only, Name only, both, neither, two ID values} to 3 (quick) / 4 (thorough) lines, plus the GTF default spec, are imported; stored keys, uniqueness, exact look-up by key and by Feature, absent near-miss keys and rejection of multi-valued ids are compared with a reference written from the statement.",
+         "3/C04", "values chosen so reference keys never collide (collisions are C05); " + TRUST),
+ "C05": ("E1", "stateless exhaustive enumeration of arrival sequences for one key x strategy x importer, stepped against a reference model of the five strategies",
+         "Every sequence of a base arrival plus 1-2 (quick) / 1-3 (thorough) arrivals from a 17/25-kind alphabet (column agreement, attribute sets, Parent, explicit ID=X_1) x 5 strategies x force_merge_fields subsets x {GFF3 create_db, create_db of a prefix + update() at every split, GTF create_db} runs on the real importer; stored ids, columns, attribute value sets and level-1/level-2 relations are compared with the reference model.",
+         "3/C05", "merged value order compared as sets; iteration position of merged/replaced features not demanded; " + TRUST),
+ "C06": ("E1", "stateless exhaustive enumeration of all boundary-coordinate query intervals x call forms against brute force over memoised real databases",
+         "A database holding one feature for every pair of bin-boundary coordinates (and one over positions 1..6) is queried with every interval of the same set x completely_within x 12 call forms (region kwargs/tuple/string/Feature/no seqid/one-sided, limit= of all_features, features_of_type, children, parents) x strand x featuretype; each answer is compared with a brute-force scan.",
+         "3/C06", "region(Feature) strand accepted under both readings; one-sided forms checked with inclusion bounds; " + TRUST),
+ "C10": ("E2", "explicit-state breadth-first search over real update/delete/add_relation/reopen histories with canonical-state deduplication and a reference model; exhaustive fault-position enumeration",
+         "All histories up to depth 3 (quick) / 4 (thorough) over 22 events on a real file database are replayed on a live FeatureDB with a reference model alongside; every distinct reached state (deduplicated on a canonical form of all tables plus in-memory counters) is compared with the model through a second connection, the .bak file with the pre-operation state, and every update bundle is re-run with its feature source failing at every position.",
+         "3/C10", "small-scope (depth/alphabet); after a failed operation only the backup is judged; " + TRUST),
+ "C11": ("E1", "stateless exhaustive enumeration of filter/order_by/reverse combinations against a full scan of a memoised real database",
+         "On a 16-feature (thorough: also 30-feature) database with mixed-case/non-ASCII seqids, numeric-looking scores, ties and '.' coordinates, every combination of method x featuretype x strand x order_by (12 names as string, 1-tuple, all ordered pairs) x reverse is run; result sets are compared with a brute-force filter and sequences must be monotone under SQLite's comparison; counts and distinct listings are compared too.",
+         "3/C11", "ties may come in any order; " + TRUST),
+ "C13": ("E1", "stateless exhaustive enumeration of input forms x checklines x transforms (and inspect arguments) against the path form and an instrumented source",
+         "Each annotation is supplied in 8 forms (path, .gz, from_string, list, instrumented one-shot generator, DataIterator with the transform on the iterator or on create_db, FeatureDB) x checklines 0..n+2 x 3 transforms; iterated sequences, transform call logs, generator pull logs and the canonical database are compared with the expectation and with the path form; inspect() is compared with a Counter for all 16 look_for subsets x limits.",
+         "3/C13", "annotations whose lines share keys; " + TRUST),
+ "C15": ("E1", "stateless exhaustive enumeration of ordered feature lists and exon sets against a reference gap generator",
+         "Every ordered list of 1..3 features (interval over 5 (quick) / 6 positions x 2 seqids x 2 strands) x 4 option settings goes through the real interfeatures; every pair of transcripts with 1..3 (thorough ..4) exons with distinct starts goes through create_introns (both selections) and create_splice_sites; results are compared with a reference written from the statement; inputs and database must be unchanged.",
+         "3/C15", "exons of a transcript have distinct starts; " + TRUST),
+ "C16": ("E1", "stateless exhaustive enumeration of interval multisets x criteria x patterns x object histories against a reference run-builder and an independent interval union",
+         "Every start-ordered multiset of <= 3 (quick) / <= 4 (thorough) intervals over 6 positions x 9 criteria sets x 4 seqid/strand/type patterns x 4 object histories goes through the real merge(); partition, extents, id freshness, input and database immutability and repeatability are checked; merge_all (both exclude_components settings) and children_bp (merge on/off) are checked on real databases built from the same multisets.",
+         "3/C16", "criteria sets never consult ambiguous accumulated fields; " + TRUST),
+ "C17": ("E1", "stateless exhaustive enumeration of setters x values x switch, of small mappings and mapping pairs, and of feature pairs",
+         "Every (feature source, setter, value shape, key, always_return_list) combination, every 1..3-key mapping over 8 value shapes (JSON identity), every ordered pair of 49 mappings x numeric_sort x container x switch (merge_attributes vs a reference, argument immutability) and every pair of a 24-feature set (equality/hash) is evaluated on the real code.",
+         "3/C17", "arbitrary Unicode beyond the value shapes is not covered; " + TRUST),
+ "C18": ("E1", "stateless exhaustive enumeration of all sub-intervals of a fixed FASTA and of small transcript structures against reference slicing and a reference BED12 writer",
+         "Every (record, start<=end, strand, use_strand, FASTA as path/object) over a two-record FASTA is checked against reference slicing/reverse-complement and len(); every set of <= 3 disjoint exons over 6 (quick) / 8 positions x span mismatch x CDS option x strand x name field x argument form x thick/thin goes through bed12() and to_bed12() on a real database and is compared field by field, including the ValueError rule.",
+         "3/C18", "thick bounds without thick features and overlapping exons are not demanded; pyfaidx trusted; " + TRUST),
  "C01": ("E1", "stateless exhaustive enumeration of a choice tree (file x configuration) over the real create_db/FeatureDB, compared with the generator's expectation",
          "Every combination of 36 grammar dialects x 6 file shapes x (line count, checklines) x database kind (:memory:, file, reopened) x merge strategy x sort_attribute_values is imported by the real create_db from a freshly written file; all_features() is compared line by line (columns, extras, ordered attributes, byte-identical print), again after reopening, and the printed features are re-imported and compared canonically.",
          "3/C01", "files satisfy consistency conditions (a)/(b) of DESIGN section 2; unique ids; path input only; " + TRUST),
